@@ -179,6 +179,14 @@ def r17_4(ctx):
     check_pack_order(ctx)
 
 
+def check_spline_quadrature(ctx):
+    """quadratures (ocp.integral, state(quad=True)) are never integrated by SplineMethod: they must be rejected, not read as 0"""
+    from .c20 import has_guard
+    f = ctx.prog.own_method("SplineMethod", "transcribe_start")
+    has_guard(ctx, f, lambda t, k: ("numel_out('quad')" in t or "nxq" in t) and k in ("assert", "raise"), "SplineMethod: quadrature states / ocp.integral rejected",
+              "integral objective terms silently evaluate to 0 under SplineMethod", "assert ode.numel_out('quad')==0 (or raise when stage.nxq>0)")
+
+
 @rule("R17.5", min_instances=4, desc="SplineMethod guards: DAE, time-varying and nonlinear dynamics rejected; localised grids rejected")
 def r17_5(ctx):
     from .c20 import has_guard
@@ -213,6 +221,12 @@ def r17_5(ctx):
         ok = ok or (in_try and tested)
     ctx.check(ok, "SplineMethod: a constant or parameter term in the dynamics is rejected", detail="affine right-hand side accepted and its offset dropped (x' = u + 1 transcribed as x' = u)",
               expected="the right-hand side evaluated at x=0, u=0 must be identically zero, else raise", found="%d evaluation(s) at the origin" % len(zero_evals), fi=f)
+    check_spline_quadrature(ctx)
+    # every chain must end in a control: a state whose derivative is zero is not a free input
+    tails = [n_ for n_ in walk_no_nested(f.node) if isinstance(n_, (ast.If, ast.Assert)) and "stage.nx" in ast.unparse(n_.test) and
+             (isinstance(n_, ast.Assert) or any(isinstance(x, ast.Raise) for x in n_.body)) and any(isinstance(l, (ast.For, ast.While)) for l in ctx.scope(f).block_chain(n_) and [o for (_t, _i, o) in ctx.scope(f).enclosing_loops(n_)])]
+    ctx.check(bool(tails), "SplineMethod: a chain that ends in a state (x' = 0) is rejected", detail="a state with zero derivative is parametrised as a free input (the declared dynamics x' = 0 are not imposed)",
+              expected="after building each chain: its last member must be a control (index >= stage.nx), else raise", found="no such test in the chain loop", fi=f)
     g = P.own_method("SplineMethod", "add_variables")
     has_guard(ctx, g, lambda t, k: "localize_t0" in t and "localize_T" in t and k == "assert", "SplineMethod: localised grids rejected", "grid formulation", "assert not localize_t0 and not localize_T")
     w = [c for c in walk_no_nested(f.node) if isinstance(c, ast.Assert) and 'weight' in ast.unparse(c.test)]
